@@ -102,6 +102,10 @@ type G struct {
 	spinSet     []uint32 // (select site, closed case) pairs taken since the last active operation
 	passiveOnly bool
 	spinBlocked bool
+	spinCount   int    // visits on probation since the last active operation
+	lowPrio     bool   // on probation: runs only when nothing else can
+	lastSelKey  uint32 // visit key and clause of the last select that took a receive from a closed channel
+	lastSelCase int
 
 	nmake int
 	isEnv bool // goroutine belongs to the harness (site outside the repository)
@@ -343,15 +347,24 @@ func (e *Exec) pick(n int, kind int) int {
 // when nothing else is.
 func (e *Exec) candidates(cur *G) []*G {
 	cands := make([]*G, 0, len(e.runq)+1)
-	if cur != nil && !cur.waitIdle {
+	if cur != nil && !cur.waitIdle && !cur.lowPrio {
 		cands = push(cands, cur)
 	}
 	for _, g := range e.runq {
-		if !g.waitIdle {
+		if !g.waitIdle && !g.lowPrio {
 			cands = push(cands, g)
 		}
 	}
 	if len(cands) == 0 {
+		// goroutines on spin probation: one at a time, no choice among them
+		if cur != nil && cur.lowPrio {
+			return push(cands, cur)
+		}
+		for _, g := range e.runq {
+			if g.lowPrio {
+				return push(cands, g)
+			}
+		}
 		if cur != nil && cur.waitIdle {
 			return push(cands, cur)
 		}
@@ -525,10 +538,10 @@ func (e *Exec) ready(g *G) {
 }
 
 // active marks a non-passive operation of g (for spin detection).
-func (g *G) active() { g.passiveOnly = false }
+func (g *G) active() { g.passiveOnly = false; g.spinCount = 0 }
 
-func (g *G) inSpinSet(site, c int) bool {
-	k := uint32(site)<<8 | uint32(c)
+func (g *G) inSpinSet(key uint32, c int) bool {
+	k := key<<4 | uint32(c)
 	for _, x := range g.spinSet {
 		if x == k {
 			return true
@@ -815,4 +828,32 @@ func live() bool {
 		runtime.Goexit()
 	}
 	return true
+}
+
+// DebugChannels describes every channel that has waiters or buffered elements (debugging aid for
+// failure messages: who is blocked on what).
+func DebugChannels() []string {
+	var out []string
+	if !live() {
+		return out
+	}
+	for _, en := range ex.chans.e {
+		if en.k == nil {
+			continue
+		}
+		c := (*chanState)(en.v)
+		if len(c.buf) == 0 && len(c.recvq) == 0 && len(c.sendq) == 0 {
+			continue
+		}
+		s := fmt.Sprintf("chan %x cap=%d buf=%d closed=%v", uintptr(en.k)&0xffffff, c.cap, len(c.buf), c.closed)
+		for _, w := range c.recvq {
+			s += fmt.Sprintf(" recv:g%d", w.g.id)
+		}
+		for _, w := range c.sendq {
+			s += fmt.Sprintf(" send:g%d", w.g.id)
+		}
+		out = push(out, s)
+	}
+	sort.Strings(out)
+	return out
 }
